@@ -47,7 +47,8 @@ COMPONENTS = {
              'BatchHandler.compute', 'Rejection/SMC', 'all four client classes', 'pickle',
              'process-global numpy generator (simulated resource, swapped per worker)'],
     'stub': ['SimBackend under the clients', 'recording operations / distributions',
-             'uuid counter', 'numpy alias shim'],
+             'uuid counter', 'numpy alias shim',
+             'subprocess as seen by elfi.model.tools -> in-process echo'],
 }
 ASSUMPTIONS = [
     'values are never compared with the reference interpreter (a wrong but pure function is '
